@@ -101,6 +101,7 @@ type FnEnc struct {
 	oblNames  map[string]int
 	skipPkgInv bool
 	structural []string
+	localObjs map[string]string
 	modAllowed map[string]func(string, string) string
 	modAllowedDone bool
 	symCache  map[int][]string
@@ -387,7 +388,7 @@ func (e *FnEnc) loadField(ref string, structT types.Type, i int) Val {
 	}
 	v := Val{T: f.Type()}
 	for _, l := range e.sorter.leaves(f.Type()) {
-		a := e.heapArr(objArrName(typeName(structT), "."+f.Name()+l.suffix), e.arrSort1(l.sort))
+		a := e.heapArr(objArrName(e.objT(ref, structT), "."+f.Name()+l.suffix), e.arrSort1(l.sort))
 		v.L = append(v.L, "(select "+a+" "+ref+")")
 	}
 	return v
@@ -424,7 +425,7 @@ func (e *FnEnc) storeField(ref string, structT types.Type, i int, val Val) {
 		return
 	}
 	for k, l := range e.sorter.leaves(f.Type()) {
-		name := objArrName(typeName(structT), "."+f.Name()+l.suffix)
+		name := objArrName(e.objT(ref, structT), "."+f.Name()+l.suffix)
 		a := e.heapArr(name, e.arrSort1(l.sort))
 		e.setHeap(name, e.arrSort1(l.sort), "(store "+a+" "+ref+" "+val.L[k]+")")
 	}
@@ -514,7 +515,7 @@ func (e *FnEnc) fieldAddr(p Val, structT types.Type, i int, resT types.Type) Val
 	if isAggregateElem(f.Type()) {
 		return Val{T: resT, L: []string{e.emb(p.L[0], i+1)}}
 	}
-	return Val{T: resT, L: []string{""}, Loc: &Loc{Kind: "field", ObjT: typeName(structT), Fld: f.Name(), Ref: p.L[0], T: f.Type()}}
+	return Val{T: resT, L: []string{""}, Loc: &Loc{Kind: "field", ObjT: e.objT(p.L[0], structT), Fld: f.Name(), Ref: p.L[0], T: f.Type()}}
 }
 
 // indexAddr: pointer to element idx (relative) of a slice value or of array with base ref
